@@ -240,3 +240,70 @@ def wildcard_string_standin():
 
     sc = type("SpecialChars", (), {"WILDCARD_MULTI": wm})
     return S, wm, sc
+
+
+def pipeline_sum_outcome(ctx):
+    """ProcessingPipeline.__add__ / __radd__ interpreted (sa.tabulate, Proxy) on two stand-in pipelines with recording
+    items. → namespace: built (constructor keyword arguments of the sum, or None), left/right (the operands), released
+    ({'left'|'right': item names whose ownership was cleared}), none_result, bad_type, radd0, radd5, operands_changed."""
+    import types as _types
+    from ..tabulate import Proxy, call_method, Raised
+    prog = ctx.prog
+    PP = "sigma.processing.pipeline.ProcessingPipeline"
+    released = {"left": [], "right": []}
+
+    class _It:
+        def __init__(self, n, side): self.n, self.side, self._pipeline = n, side, "owner"
+        def _clear_pipeline(self):
+            released[self.side].append(self.n)
+            self._pipeline = None
+        def set_pipeline(self, p): self._pipeline = p
+        def __repr__(self): return self.n
+
+    class _Fin(_It):
+        def __setattr__(self, k, v):
+            if k == "_pipeline" and v is None and "n" in self.__dict__:
+                released[self.side].append(self.n)
+            object.__setattr__(self, k, v)
+
+    built: list = []
+    env: dict = {}
+    IK = {"max_steps": 6000}
+
+    def ctor(*a, **k):
+        names = ["items", "postprocessing_items", "finalizers", "vars"]
+        kw = dict(zip(names, a))
+        kw.update(k)
+        built.append(kw)
+        return Proxy(prog, PP, env, dict(kw), ctor=ctor, interp_kwargs=IK)
+
+    def mk(side, tag, vars_):
+        return Proxy(prog, PP, env, {"items": [_It(f"{tag}i1", side), _It(f"{tag}i2", side)], "postprocessing_items": [_It(f"{tag}p1", side)], "finalizers": [_Fin(f"{tag}f1", side)],
+                                     "vars": dict(vars_), "state": {}, "applied": [], "applied_ids": set(), "name": tag, "priority": 0}, ctor=ctor, interp_kwargs=IK)
+
+    left, right = mk("left", "L", {"x": 1, "y": 1}), mk("right", "R", {"y": 2, "z": 2})
+    before = {side: {k: (list(v) if isinstance(v, list) else dict(v)) for k, v in p.attrs().items() if k in ("items", "postprocessing_items", "finalizers", "vars")} for side, p in (("left", left), ("right", right))}
+    out = _types.SimpleNamespace(built=None, left=left, right=right, released=released, result=None, raised=None)
+    try:
+        out.result = call_method(prog, PP, "__add__", left, env, right, interp_kwargs=IK)
+        out.built = built[-1] if built else None
+    except Raised as ex:
+        out.raised = ex
+    after = {side: {k: (list(v) if isinstance(v, list) else dict(v)) for k, v in p.attrs().items() if k in before[side]} for side, p in (("left", left), ("right", right))}
+    out.operands_changed = [f"{side}.{k}" for side in before for k in before[side] if before[side][k] != after[side].get(k)]
+    lone = mk("left", "N", {})
+    try:
+        out.none_result = call_method(prog, PP, "__add__", lone, env, None, interp_kwargs=IK) is lone
+    except Raised as ex:
+        out.none_result = ex
+    try:
+        call_method(prog, PP, "__add__", lone, env, 5, interp_kwargs=IK)
+        out.bad_type = "no error"
+    except Raised as ex:
+        out.bad_type = str(ex)
+    try:
+        out.radd0 = call_method(prog, PP, "__radd__", lone, env, 0, interp_kwargs=IK) is lone
+        out.radd5 = call_method(prog, PP, "__radd__", lone, env, 5, interp_kwargs=IK)
+    except Raised as ex:
+        out.radd0, out.radd5 = ex, ex
+    return out
